@@ -274,6 +274,8 @@ def main(argv):
     import vprops
     if len(argv) >= 2 and argv[0] == "replay":
         return vprops.replay(argv[1])
+    if len(argv) >= 2 and argv[0] == "dev":
+        return vprops.dev(argv[1], int(argv[2]) if len(argv) > 2 else 16, int(argv[3]) if len(argv) > 3 else 400)
     if len(argv) < 2 or argv[1] not in ("quick", "thorough"):
         log(__doc__)
         log("usage: ./check <Cxx> <quick|thorough> | ./check replay <path>")
